@@ -27,6 +27,13 @@ def check(tier):
     both = [diff.Config("interp-j1", "interp", 1), diff.Config("compiled-g-j1", "compiled", 1)]
     specs = gen.enum_core(max_body=1) + (gen.enum_core(max_body=2, terms=("x", "y"), consts=(), cmp_ops=("<",))[::4] if tier == "quick"
                                          else gen.enum_core(max_body=2, terms=("x", "y"), consts=(0,), cmp_ops=("<",)))
+    cases, small, extreme = gen4.family_eqrel(tier)
+    diff.differential(rep, cases, small, both, "eqrel", batch_size=40, deadline=dl)
+    diff.differential(rep, cases, extreme, both, "eqrel-extreme", batch_size=40, deadline=dl, classify=classify)
+    multi = [diff.Config("interp-j2", "interp", 2), diff.Config("interp-j4", "interp", 4)]
+    diff.differential(rep, cases, gen4.eqrel_partition_dbs(), multi, "eqrel-partition", batch_size=40, deadline=dl)
+    rep.sample({"family": "eqrel-partition", "cases": len(cases), "databases": 3, "configs": "interpreter -j2 / -j4: the eqrel scan is split with partition(20 x threads)"})
+    rep.sample({"family": "eqrel", "cases": len(cases), "example": cases[5].desc, "databases": len(small) + len(extreme)})
     reprs = [(), ("btree",), ("brie",)]
     k = 0
     for qp, qq in itertools.product(reprs, reprs):
@@ -41,12 +48,9 @@ def check(tier):
         diff.differential(rep, cs, dbs, both, "repr-%d" % k, batch_size=100, deadline=dl)
         rep.sample({"family": "core p:%s q:%s" % (qp or "default", qq or "default"), "cases": len(cs)}, cap=12)
         k += 1
-    cases, small, extreme = gen4.family_eqrel(tier)
-    diff.differential(rep, cases, small, both, "eqrel", batch_size=40, deadline=dl)
-    diff.differential(rep, cases, extreme, both, "eqrel-extreme", batch_size=40, deadline=dl, classify=classify)
-    rep.sample({"family": "eqrel", "cases": len(cases), "example": cases[5].desc, "databases": len(small) + len(extreme)})
     rep.set("rule", "core programs x 8 non-default assignments of {default, btree, brie} to (p, q) x databases x {interpreter, compiled}; eqrel: 3 "
-            "ways of feeding the relation x 11 access patterns x 8 databases including 2^31-1 and -2^31, compared with the reference closure")
+            "ways of feeding the relation x 11 access patterns x 8 databases including 2^31-1 and -2^31, compared with the reference closure; "
+            "the same programs at -j2 / -j4 over 3 databases with 48-89 classes or a 20-element class beside 2-3 element classes (parallel partitioned scan)")
     return rep.finish()
 
 
